@@ -4,7 +4,7 @@ CONSTANTS NK = 3
   KMax <- M3o
   KGen <- G3o
   MaxN = 1
-  OtherKinds <- OthersOne
+  OtherKinds <- OthersB
   RawModes <- RawNone
   D = 0
 INIT Init
